@@ -162,11 +162,111 @@ macro_rules! dispatch_all {
     };
 }
 
+/// borsh round trip of one value (feature `borsh`): reply = numbers of the value read back, or SERERR / DEERR / LEFTOVER
+#[cfg(feature = "borsh")]
+fn borshrt_t<T: Flat + borsh::BorshSerialize + borsh::BorshDeserialize>(a: &[f64]) -> String {
+    let v = T::from_flat(a);
+    let mut buf: Vec<u8> = Vec::new();
+    if borsh::BorshSerialize::serialize(&v, &mut buf).is_err() {
+        return "ERR SERERR".to_string();
+    }
+    let mut rd: &[u8] = &buf[..];
+    match <T as borsh::BorshDeserialize>::deserialize_reader(&mut rd) {
+        Err(_) => "ERR DEERR".to_string(),
+        Ok(w) => {
+            if !rd.is_empty() {
+                return "ERR LEFTOVER".to_string();
+            }
+            out(&w.to_flat())
+        }
+    }
+}
+#[cfg(feature = "borsh")]
+fn borshrt_pw<T: Flat + borsh::BorshSerialize + borsh::BorshDeserialize>(n: usize, a: &[f64]) -> String {
+    let w = T::N + 1;
+    let v = Piecewise { segments: (0..n).map(|i| Segment::<T>::from_flat(&a[i * w..(i + 1) * w])).collect::<Vec<_>>() };
+    let mut buf: Vec<u8> = Vec::new();
+    if borsh::BorshSerialize::serialize(&v, &mut buf).is_err() {
+        return "ERR SERERR".to_string();
+    }
+    let mut rd: &[u8] = &buf[..];
+    match <Piecewise<T> as borsh::BorshDeserialize>::deserialize_reader(&mut rd) {
+        Err(_) => "ERR DEERR".to_string(),
+        Ok(w2) => {
+            if !rd.is_empty() {
+                return "ERR LEFTOVER".to_string();
+            }
+            let mut o = vec![w2.segments.len() as f64];
+            for s in &w2.segments {
+                o.extend(s.to_flat());
+            }
+            out(&o)
+        }
+    }
+}
+#[cfg(feature = "borsh")]
+impl Flat for Knot {
+    const N: usize = 2;
+    fn from_flat(v: &[f64]) -> Self {
+        Knot { x: v[0], y: v[1] }
+    }
+    fn to_flat(&self) -> Vec<f64> {
+        vec![self.x, self.y]
+    }
+}
+#[cfg(feature = "borsh")]
+fn borshrt(ty: &str, a: &[f64]) -> Option<String> {
+    macro_rules! all_types {
+        ($m:ident, $ty:expr, $($pre:tt)*) => {
+            $m!($ty, $($pre)* [
+                "P0" => Poly0, "P1" => Poly1, "P2" => Poly2, "P3" => Poly3, "P4" => Poly4, "P5" => Poly5,
+                "P6" => Poly6, "P7" => Poly7, "P8" => Poly8,
+                "LP0" => Log<Poly0>, "LP1" => Log<Poly1>, "LP2" => Log<Poly2>, "LP3" => Log<Poly3>,
+                "LP4" => Log<Poly4>, "LP5" => Log<Poly5>, "LP6" => Log<Poly6>, "LP7" => Log<Poly7>, "LP8" => Log<Poly8>,
+                "IL0" => IntOfLog<Poly0>, "IL1" => IntOfLog<Poly1>, "IL2" => IntOfLog<Poly2>, "IL3" => IntOfLog<Poly3>,
+                "IL4" => IntOfLog<Poly4>, "IL5" => IntOfLog<Poly5>, "IL6" => IntOfLog<Poly6>, "IL7" => IntOfLog<Poly7>,
+                "IL8" => IntOfLog<Poly8>, "ILP4" => IntOfLogPoly4
+            ])
+        };
+    }
+    macro_rules! plain {
+        ($ty:expr, [$($name:literal => $t:ty),*]) => {
+            match $ty { $($name => Some(borshrt_t::<$t>(a)),)* _ => None }
+        };
+    }
+    macro_rules! seg {
+        ($ty:expr, [$($name:literal => $t:ty),*]) => {
+            match $ty { $($name => Some(borshrt_t::<Segment<$t>>(a)),)* _ => None }
+        };
+    }
+    macro_rules! pw {
+        ($ty:expr, $n:ident, [$($name:literal => $t:ty),*]) => {
+            match $ty { $($name => Some(borshrt_pw::<$t>($n, a)),)* _ => None }
+        };
+    }
+    if ty == "K" {
+        return Some(borshrt_t::<Knot>(a));
+    }
+    if let Some(rest) = ty.strip_prefix('W') {
+        let (n, inner) = rest.split_once(':')?;
+        let n: usize = n.parse().ok()?;
+        return all_types!(pw, inner, n,);
+    }
+    if let Some(inner) = ty.strip_prefix('S') {
+        return all_types!(seg, inner,);
+    }
+    all_types!(plain, ty,)
+}
+
 fn knots_of(a: &[f64]) -> Vec<Knot> {
     a.chunks(2).map(|c| Knot { x: c[0], y: c[1] }).collect()
 }
 
 fn handle(op: &str, ty: &str, a: &[f64]) -> Option<String> {
+    #[cfg(feature = "borsh")]
+    if op == "borshrt" {
+        return borshrt(ty, a);
+    }
     match op {
         "eval" => {
             if let Some(k) = ty.strip_prefix("PN") {
